@@ -188,3 +188,21 @@ def eval_cases(scratch, tag, header, case_type, cases, evals, shard=1500, timeou
             for j, l in enumerate(lists):
                 results[j] += [(k * shard + i, code) for i, code in l]
     return results
+
+
+def check_props_parallel(files, scratch, extra_q=(), timeout=900, jobs=4):
+    """Like check_props, but the Props files are re-compiled concurrently (one coqc each) and the results merged
+    in the order of `files`.  For properties whose theorems are spread over several Props files."""
+    with concurrent.futures.ThreadPoolExecutor(max_workers=jobs) as ex:
+        parts = list(ex.map(lambda f: check_props([f], scratch, extra_q=extra_q, timeout=timeout), files))
+    res = dict(theorems=[], examples=[], assumptions={}, ok=True, log="", seconds=0.0, files=[])
+    for r in parts:
+        res["theorems"] += r["theorems"]
+        res["examples"] += r["examples"]
+        res["assumptions"].update(r["assumptions"])
+        res["ok"] = res["ok"] and r["ok"]
+        res["log"] += r["log"]
+        res["seconds"] = max(res["seconds"], r["seconds"])
+        res["files"] += r["files"]
+    return res
+
